@@ -12,6 +12,7 @@ import Driver.Multi
 import Driver.Containers
 import Driver.Effects
 import Driver.Pabulib
+import Driver.MESLazy
 open Pabu Pabu.Driver
 
 def dispatch (line : String) : String :=
@@ -22,6 +23,7 @@ def dispatch (line : String) : String :=
     match cmd with
     | "mes" => cmdMes a
     | "mestrace" => cmdMesTrace a
+    | "meslazy" => cmdMesLazy a
     | "greedy" => cmdGreedy a
     | "phragmen" => cmdPhragmen a
     | "maxw" => cmdMaxw a
